@@ -159,6 +159,9 @@ func probes() []Case {
 		mk(Spec{Kind: "filter", Tokenizer: ws, Filters: []FilterSpec{{Name: "cjk_bigram", F1: false}}}, "世\x80"),
 		mk(Spec{Kind: "filter", Tokenizer: uni, Filters: []FilterSpec{{Name: "cjk_bigram", F1: false}}}, "世界\x80こん"),
 		mk(Spec{Kind: "analyzer", Analyzer: "cjk"}, "世界\x80こん"),
+		mk(Spec{Kind: "analyzer", Analyzer: "cjk"}, "l'avion\xe3\xc0\x80"),
+		mk(Spec{Kind: "filter", Tokenizer: uni, Filters: []FilterSpec{{Name: "cjk_bigram", F1: true}}}, "l'avion\xe3\xc0\x80"),
+		mk(Spec{Kind: "analyzer", Analyzer: "cjk"}, "\xe3\x81\xe3\x81\x82\xe3 \xe4\xb8\xe4\xb8\x96"),
 	}
 }
 
